@@ -10,7 +10,9 @@ import (
 	"encoding/json"
 	"fmt"
 	"os"
+	"os/exec"
 	"os/signal"
+	"strings"
 	"syscall"
 	"time"
 )
@@ -25,6 +27,43 @@ type childScript struct {
 	Fifo      string `json:"fifo"`
 	Go        string `json:"go"` // FIFO on which the parent says "go" once the answered calls have returned
 	IgnoreInt bool   `json:"ignoreInt"`
+	Helper    int    `json:"helper"` // > 0: before anything else start a helper process (this binary again, sleeping that many seconds) that inherits this process' stderr and is left behind
+}
+
+// sleeperEnv: this binary re-executed as the helper a scripted stdio peer leaves behind: it holds the stderr it inherited and
+// sleeps (a server that shelled out to a tool or started a daemon). It leaves by itself after the given number of seconds,
+// so a crashed harness cannot leave it behind for long; the scenario kills it at its end.
+const sleeperEnv = "VERIF_CALLS_SLEEPER"
+
+const helperSleepS = 8
+
+func sleeperMain(arg string) {
+	n := 0
+	fmt.Sscanf(arg, "%d", &n)
+	if n <= 0 || n > 30 {
+		n = helperSleepS
+	}
+	time.Sleep(time.Duration(n) * time.Second)
+	os.Exit(0)
+}
+
+// startHelper starts the helper: stdin and stdout are /dev/null, stderr is this process' stderr (the pipe, or whatever else,
+// the parent library gave it). Nobody waits for it.
+func startHelper(seconds int) int {
+	cmd := exec.Command(selfExe())
+	for _, e := range os.Environ() {
+		if !strings.HasPrefix(e, childEnv+"=") && !strings.HasPrefix(e, stressEnv+"=") {
+			cmd.Env = append(cmd.Env, e)
+		}
+	}
+	cmd.Env = append(cmd.Env, fmt.Sprintf("%s=%d", sleeperEnv, seconds))
+	cmd.Stderr = os.Stderr
+	if err := cmd.Start(); err != nil {
+		return -1
+	}
+	pid := cmd.Process.Pid
+	cmd.Process.Release()
+	return pid
 }
 
 type childReq struct {
@@ -73,6 +112,13 @@ func childMain(raw string) {
 	mark := func(s string) {
 		if fifo != nil {
 			fmt.Fprintf(fifo, "%s %d\n", s, time.Now().UnixNano())
+		}
+	}
+	if sc.Helper > 0 {
+		if fifo != nil {
+			fmt.Fprintf(fifo, "helper %d\n", startHelper(sc.Helper))
+		} else {
+			startHelper(sc.Helper)
 		}
 	}
 	in := bufio.NewReaderSize(os.Stdin, 1<<20)
